@@ -305,9 +305,11 @@ def model_orders(cases):
     return em, r
 
 
-SMALL_INSTANCES = [   # (scheme, grid index or config overrides, profile): exhaustive placement exploration
-    ("CJJ14.PiPtr", 0, [3, 2, 2]), ("CJJ14.PiPtr", 0, [4, 3, 2]), ("CJJ14.PiPtr", 1, [2, 2, 1, 1]),
-    ("CJJ14.Pi2Lev", 0, [3, 4]), ("CJJ14.Pi2Lev", 0, [5, 3]),
+SMALL_INSTANCES = [   # (scheme, overrides of the default configuration, profile): exhaustive placement exploration
+    ("CJJ14.PiPtr", {"param_B": 2, "param_b": 2}, [3, 2, 2]), ("CJJ14.PiPtr", {"param_B": 2, "param_b": 2}, [4, 3, 2]),
+    ("CJJ14.PiPtr", {"param_B": 1, "param_b": 1}, [2, 2, 1, 1]),
+    ("CJJ14.Pi2Lev", {"param_B": 2, "param_b": 2, "param_B_prime": 2, "param_b_prime": 2}, [3, 4]),
+    ("CJJ14.Pi2Lev", {"param_B": 2, "param_b": 2, "param_B_prime": 2, "param_b_prime": 2}, [5, 3]),
     ("CGKO06.SSE1", {"param_s": 8, "param_dictionary_size": 4}, [2, 1]), ("CGKO06.SSE1", {"param_s": 8, "param_dictionary_size": 4}, [2, 2]),
     ("DP17.Pi", {"param_actual_storage_level_ratio": 1, "param_L": 1}, [2, 2, 2, 2]),
     ("DP17.Pi", {"param_actual_storage_level_ratio": 1, "param_L": 2}, [3, 2, 1]),
@@ -317,9 +319,7 @@ SMALL_INSTANCES = [   # (scheme, grid index or config overrides, profile): exhau
 ]
 
 
-def cfg_of(scheme, g, tr="thorough"):
-    if isinstance(g, int):
-        return se.grid(scheme, "thorough")[g]
+def cfg_of(scheme, g):
     c = sc.default_config(scheme)
     c.update(g)
     return c
